@@ -275,6 +275,12 @@ class Runaway(Exception):
     """ The execution is far longer than any scenario needs (e.g. a restart storm): it is cut, and reported as such. """
 
 
+class Livelock(BaseException):
+    """ One scheduler step (one call into an instance) keeps producing observable actions without ever returning:
+    virtual time cannot advance any more. Not an Exception, so that the last-resort guards of the code under test do
+    not swallow it. """
+
+
 class DeferredResult(dict):
     """ Record of a deferred XML-RPC answer (callee returned a callable polled from its main loop). """
 
@@ -650,6 +656,8 @@ class World:
         self.max_steps = scenario.get('max_steps', 30000)
         self.max_start_requests = scenario.get('max_start_requests', 4000)
         self.start_requests_seen = 0
+        self.hook_step, self.hooks_in_step = -1, 0
+        self.max_hooks_per_step = scenario.get('max_hooks_per_step', 20000)
         self.restart_delay = sched.get('restart_delay', (0.5, 3.0))
         self.auto_reboot = scenario.get('auto_reboot', True)
         self.msg_filter = None   # callable(world, src_inst, dst_identifier, method, args) -> 'drop' | None
@@ -1034,6 +1042,12 @@ class World:
             def wrapper(*args, **kw):
                 if name == 'send_start_process':
                     world.start_requests_seen += 1
+                if world.hook_step != world.steps:
+                    world.hook_step, world.hooks_in_step = world.steps, 0
+                world.hooks_in_step += 1
+                if world.hooks_in_step > world.max_hooks_per_step:
+                    raise Livelock(f'{inst.nick}: {name} called more than {world.max_hooks_per_step} times within one '
+                                   f'scheduler step at vt={round(world.now - BASE_TIME, 3)}')
                 world.emit('hook', name=name, inst=inst.nick, inc=inst.inc,
                            args=args if name.startswith('send_') else None)
                 for cb in cbs.get(name, ()):
